@@ -320,7 +320,12 @@ func (p *TransportParameters) readNumericTransportParameter(b []byte, paramID tr
 			return fmt.Errorf("initial_max_streams_uni too large: %d (maximum %d)", p.MaxUniStreamNum, protocol.MaxStreamCount)
 		}
 	case maxIdleTimeoutParameterID:
-		p.MaxIdleTimeout = max(protocol.MinRemoteIdleTimeout, time.Duration(val)*time.Millisecond)
+		// A value of 0 means that the peer doesn't use an idle timeout, just like omitting the parameter.
+		if val > 0 {
+			// saturate instead of overflowing the time.Duration
+			timeout := time.Duration(min(val, uint64(math.MaxInt64/time.Millisecond))) * time.Millisecond
+			p.MaxIdleTimeout = max(protocol.MinRemoteIdleTimeout, timeout)
+		}
 	case maxUDPPayloadSizeParameterID:
 		if val < 1200 {
 			return fmt.Errorf("invalid value for max_udp_payload_size: %d (minimum 1200)", val)
@@ -344,9 +349,9 @@ func (p *TransportParameters) readNumericTransportParameter(b []byte, paramID tr
 	case maxDatagramFrameSizeParameterID:
 		p.MaxDatagramFrameSize = protocol.ByteCount(val)
 	case minAckDelayParameterID:
-		mad := time.Duration(val) * time.Microsecond
-		if mad < 0 {
-			mad = math.MaxInt64
+		mad := time.Duration(math.MaxInt64)
+		if val <= uint64(math.MaxInt64/time.Microsecond) { // otherwise the multiplication overflows
+			mad = time.Duration(val) * time.Microsecond
 		}
 		p.MinAckDelay = &mad
 	default:
